@@ -73,7 +73,11 @@ func (r *responseStorer) StoreResponse(
 		ReceivedAt:  respTime,
 		ID:          responseID,
 	}
-	_ = r.cache.Set(responseID, respEntry)
+	if err := r.cache.Set(responseID, respEntry); err != nil {
+		// Nothing was stored (the body could not be read completely, or the store
+		// failed): the index must not refer to, or describe, this response.
+		return err
+	}
 
 	switch {
 	case refs == nil:
